@@ -21,10 +21,10 @@ META = {
              "random pairs (thorough); in-situ calls made by to_array/collapsed/IndxIO.save, whose consequences (dense "
              "output, collapsed output, INDX coordinate words) are checked for wrap-around as well. "
              "Non-trivial: max or min within 1 of +-2^7,2^8,+-2^15,2^16,+-2^31,2^32,+-2^63,2^64; distinct by (max,min,form)"),
-    "require": {"quick": ["pairs_partition", "insitu_calls", "consequence:indx_words_checked",
+    "require": {"quick": ["pairs_partition", "consequence:indx_words_checked",
                           "consequence:collapsed_output_checked", "consequence:to_array_after_in_place_code_change",
                           "consequence:collapsed_over_255..257_columns"],
-                "thorough": ["pairs_partition", "pairs_random", "insitu_calls", "consequence:indx_words_checked",
+                "thorough": ["pairs_partition", "pairs_random", "consequence:indx_words_checked",
                              "consequence:collapsed_output_checked"]},
     "exhaustive": {"quick": "threshold partition P x P' of the (max,min) plane (all powers of two +-1, k=0..64)",
                    "thorough": "threshold partition P x P' of the (max,min) plane (all powers of two +-1, k=0..64)"},
